@@ -46,7 +46,7 @@ theorem C12_bmp_roundtrip {α} (f : PixFmt α) (hf : f.Lawful) (hsz : f.size = 3
   have hb : f.size * 8 = 24 ∨ f.size * 8 = 32 := by omega
   simp only [hb, if_true]
   congr 1
-  simp only [bmpReadData, hpitch, Settings.full, Settings.dimX, Settings.dimY, if_true, Int.toNat_natCast, Nat.add_zero]
+  simp only [bmpReadData, readRows, hpitch, Settings.full, Settings.dimX, Settings.dimY, if_true, Int.toNat_natCast, Nat.add_zero]
   congr 1
   -- the rows: block `h-1-y` of the body is the padded encoding of row `y`
   subst hlen
@@ -59,7 +59,7 @@ theorem C12_bmp_roundtrip {α} (f : PixFmt α) (hf : f.Lawful) (hsz : f.size = 3
   have hk : rows.length - 1 - i < (rows.reverse.map (fun r => padTo (bmpSpn w f.size) (encRow f r))).length := by
     simp; omega
   have hpos : ((rows.length : Int) > 0) := by omega
-  simp only [bmpGetOffset, hpos, if_true, Int.toNat_natCast, readAt, bmpBody]
+  simp only [bmpGetOffset, hpos, if_true, Int.toNat_natCast, bmpBody]
   have := readAt_block (bmpSpn w f.size) (bmpHeader w rows.length f.size) _ (rows.length - 1 - i) hk hblocks
   rw [length_bmpHeader] at this
   rw [this]
@@ -145,7 +145,7 @@ theorem C12_pnm_roundtrip {α} (f : PixFmt α) (hf : f.Lawful) (t : Nat) (ht : (
   congr 1
   have hsl : pnmScanline t w = w * f.size := by
     rcases ht with ⟨rfl, e⟩ | ⟨rfl, e⟩ <;> simp [pnmScanline, e]
-  simp only [pnmReadBin, hsl, Settings.full, Settings.dimX, Settings.dimY, if_true, Nat.zero_add]
+  simp only [pnmReadBin, readRows, hsl, Settings.full, Settings.dimX, Settings.dimY, if_true, Nat.add_zero]
   congr 1
   subst hlen
   have hblocks : ∀ b ∈ rows.map (encRow f), b.length = w * f.size := by
@@ -157,7 +157,7 @@ theorem C12_pnm_roundtrip {α} (f : PixFmt α) (hf : f.Lawful) (t : Nat) (ht : (
   have hk : i < (rows.map (encRow f)).length := by simpa using hi
   have hb := readAt_block (w * f.size) ([] : Bytes) _ i hk hblocks
   simp only [List.nil_append, List.length_nil, Nat.zero_add] at hb
-  simp only [readAt, hb, List.getElem_map]
+  simp only [hb, List.getElem_map]
   have hr : rows[i].length = w := hrow _ (List.getElem_mem _)
   have := decRow_encRow hf rows[i] []
   rw [List.append_nil, hr] at this
@@ -201,7 +201,7 @@ private theorem pnm_mono_file (rowEnc : List Bool → Bytes) (rowDec : Bytes →
     decodePnmMonoWith rowDec (pnmHeader 4 w h ++ (rows.map rowEnc).flatten) Settings.full = some ⟨w, h, rows.map g⟩ := by
   unfold decodePnmMonoWith
   rw [pnmReadHeader_pnmHeader 4 w h _ (Or.inl rfl) hw hh]
-  simp only [if_true, pnmScanline, Settings.full, Settings.dimX, Settings.dimY, Nat.zero_add]
+  simp only [if_true, pnmScanline, readRows, Settings.full, Settings.dimX, Settings.dimY, Nat.add_zero]
   congr 2
   subst hlen
   have hblocks : ∀ b ∈ rows.map rowEnc, b.length = (w + 7) / 8 := by
@@ -214,7 +214,7 @@ private theorem pnm_mono_file (rowEnc : List Bool → Bytes) (rowDec : Bytes →
   have hk : i < (rows.map rowEnc).length := by simpa using hi'
   have hb := readAt_block ((w + 7) / 8) ([] : Bytes) _ i hk hblocks
   simp only [List.nil_append, List.length_nil, Nat.zero_add] at hb
-  simp only [readAt, hb, List.getElem_map]
+  simp only [hb, List.getElem_map]
   have hmem : rows[i] ∈ rows := List.getElem_mem _
   rw [padTo, hsl _ hmem, Nat.sub_self, List.replicate_zero, List.append_nil]
   exact hrt _ hmem
